@@ -719,16 +719,16 @@ func genVio(p *packages.Package, out string, ov *overlay, repo string) []string 
 		rw.apply()
 		rw.fixImports()
 		astutil.AddImport(p.Fset, f, "io")
-		f.Name = ast.NewIdent("vio")
+		f.Name = ast.NewIdent("viogen")
 		errs = append(errs, rw.errs...)
 		var buf bytes.Buffer
 		if err := format.Node(&buf, p.Fset, f); err != nil {
 			return append(errs, "vio: "+err.Error())
 		}
-		dst := filepath.Join(out, "rw", "_vio", "pipe.go")
+		dst := filepath.Join(out, "rw", "_viogen", "pipe.go")
 		os.MkdirAll(filepath.Dir(dst), 0755)
 		os.WriteFile(dst, buf.Bytes(), 0644)
-		ov.Replace[filepath.Join(repo, "zz_verif", "vio", "pipe.go")] = dst
+		ov.Replace[filepath.Join(repo, "zz_verif", "viogen", "pipe.go")] = dst
 	}
 	return errs
 }
